@@ -158,7 +158,14 @@ def r5(rr, repo):
         seeks = [e for e in p.events if e.kind == 'call' and e.term.endswith('.seek') and 'open(' in e.term]
         if p.outcome is not None and p.outcome[0] == 'raise':
             continue
-        if found and found[0] is True:
+        vanished = any(kk.startswith('raised-in-try@') for kk, v in p.pc)
+        if found and found[0] is True and vanished:
+            # the listed file disappeared between the scan and the open(): continue with the NEXT file at offset 0, nothing is opened here
+            rows.add('vanished')
+            ok = bool(st) and st[-1].args[0].replace(' ', '') in ('__elem__(enumerate(self.logfiles))[0]+1', '1+__elem__(enumerate(self.logfiles))[0]') and not seeks
+            rr.ob('saved file listed but gone when opened: move on to the next file (index + 1), no stale offset is applied', ok, mod, st[-1].node if st else fn,
+                  witness=st[-1].args[0] if st else 'no store', key='seek-vanished')
+        elif found and found[0] is True:
             rows.add('found')
             end = [v for kk, v in p.pc if kk == f"eq('end', {param}[1])"]
             ok = bool(opens) and bool(st) and st[-1].args[0].endswith('[0]') and '__elem__' in st[-1].args[0] and opens[0].args[1].strip('\'"') == 'rb'
@@ -203,3 +210,9 @@ def r6(rr, repo):
             else:
                 rr.ob("no files at all: ('start', 0)", t.replace('"', "'") == "('start', 0)", mod, fn, witness=t, key='tell-empty')
     rr.floor('returning paths of tell()', n, 3, mod, fn)
+
+
+@rule('C14.R7', 'a restarted reader finds the file its saved position names: the scan that rebuilds the file list accepts exactly the names the writer produces and recovers their timestamps (shares C13.R8)')
+def r7(rr, repo):
+    from .c13 import r8 as c13r8
+    c13r8(rr, repo)
